@@ -316,11 +316,29 @@ def declared_gate(m, ff, appends, p):
     passed a `name in self.results` test whose failure raises ValueError?"""
     from ..flow import normalise_fact
 
+    def pure_name(e, depth=0):
+        # the name of the operand itself (x.name / x.plate.name, chosen by its type) - not something computed from it:
+        # a name cut at '[' or lower-cased matches other objects than the one that will be looked up when baking
+        from ..flow import Phi
+        e = strip_refs(e)
+        if depth > 8:
+            return False
+        if isinstance(e, Phi):
+            return all(pure_name(o, depth + 1) for o in e.options)
+        if isinstance(e, ast.IfExp):
+            return pure_name(e.body, depth + 1) and pure_name(e.orelse, depth + 1)
+        if isinstance(e, ast.Attribute) and e.attr == 'name':
+            v = strip_refs(e.value)
+            while isinstance(v, ast.Attribute):
+                v = strip_refs(v.value)
+            return isinstance(v, Param) and v.name == p
+        return False
+
     def declared(c):
-        return c.op == 'in' and mentions_param_attr(c.left, p, 'name') and mentions_self_attr(c.right, 'results')
+        return c.op == 'in' and mentions_param_attr(c.left, p, 'name') and pure_name(c.left) and mentions_self_attr(c.right, 'results')
 
     def undeclared(c):
-        return c.op == 'notin' and mentions_param_attr(c.left, p, 'name') and mentions_self_attr(c.right, 'results')
+        return c.op == 'notin' and mentions_param_attr(c.left, p, 'name') and pure_name(c.left) and mentions_self_attr(c.right, 'results')
 
     def benign(f):
         t = f.test
